@@ -374,13 +374,14 @@ package xpath
 //@   preserves elems(ctx.prog)
 
 //@ func (*context).Run
-//@   requires ctx != nil && ctx.res != nil
+//@   requires ctx != nil && ctx.res != nil && ctx.res.runErr == nil
 //@   requires forall(i, 0, len(ctx.prog), ctx.prog[i].fn != nil)
 //@   modifies *
 //@   nopanic
 //@   ensures result != nil && result == old(ctx.res)
 //@   loop 0 invariant ctx.res == old(ctx.res) && ctx.prog == old(ctx.prog)
 //@   loop 0 invariant forall(i, 0, len(ctx.prog), ctx.prog[i].fn != nil)
+//@   loop 0 invariant ctx.res.runErr == nil
 
 // ---------------------------------------------------------------------------
 // Location paths (C02): instructions build the path the data tree is asked for on the
@@ -420,3 +421,137 @@ package xpath
 //@   modifies toppath(ctx).IsRootBased
 //@   nopanic
 //@   ensures toppath(ctx).IsRootBased
+
+// Predicates: [k = v] pairs are collected in a map (so their order is irrelevant by construction) and
+// attached as keys to the step they follow when the predicate list ends.
+//@ define predstk(ctx) = ctx.predicatePathElemStack.stack
+//@ define topmap(ctx) = ctx.predicatePathElemStack.stack[len(ctx.predicatePathElemStack.stack)-1]
+//@ func (*ProgBuilder).PredicatesStart$1
+//@   requires ctx != nil && ctx.predicatePathElemStack != nil
+//@   modifies ctx.predicatePathElemStack.stack
+//@   modifies elems(ctx.predicatePathElemStack.stack)
+//@   nopanic
+//@   ensures len(predstk(ctx)) == old(len(predstk(ctx))) + 1 && topmap(ctx) != nil && len(topmap(ctx)) == 0 && isfresh(topmap(ctx))
+//@   ensures forall(i, 0, len(predstk(ctx))-1, predstk(ctx)[i] == old(predstk(ctx)[i]))
+//@ func (*ProgBuilder).PredicatesEnd$1
+//@   requires ctx != nil && ctx.predicatePathElemStack != nil && len(predstk(ctx)) >= 1 && pathWF(ctx) && len(toppath(ctx).Elem) >= 1 && lastElem(toppath(ctx)) != nil && lastElem(toppath(ctx)).Key != topmap(ctx)
+//@   modifies ctx.predicatePathElemStack.stack
+//@   modifies lastElem(toppath(ctx)).Key
+//@   modifies mapof(lastElem(toppath(ctx)).Key)
+//@   nopanic
+//@   ensures predstk(ctx) == old(predstk(ctx)[:len(predstk(ctx))-1])
+//@   ensures forallstr(k, implies(old(inmap(topmap(ctx), k)), inmap(lastElem(toppath(ctx)).Key, k) && lastElem(toppath(ctx)).Key[k] == old(topmap(ctx)[k])))
+//@   loop 0 invariant isfresh(keySlice) && forallstr(k, implies(visited(k), exists(i, 0, len(keySlice), keySlice[i] == k)))
+//@   loop 1 invariant pstk(ctx) == old(pstk(ctx)) && toppath(ctx) == old(toppath(ctx)) && toppath(ctx).Elem == old(toppath(ctx).Elem) && lastElem(toppath(ctx)) == old(lastElem(toppath(ctx)))
+//@   loop 1 invariant lastElem(toppath(ctx)).Key != t4 && forallstr(k, inmap(t4, k) == old(inmap(topmap(ctx), k)) && t4[k] == old(topmap(ctx)[k]))
+//@   loop 1 invariant forallstr(k, implies(old(inmap(topmap(ctx), k)), exists(i, 0, len(t6), t6[i] == k)))
+//@   loop 1 invariant forall(i, 0, loopidx+1, inmap(lastElem(toppath(ctx)).Key, t6[i]) && lastElem(toppath(ctx)).Key[t6[i]] == t4[t6[i]])
+
+// Path stack primitives (callers inline them).
+//@ func (*PathStack).PopPath
+//@   inline
+//@   requires p != nil && len(p.stack) >= 1
+//@   modifies p.stack
+//@   nopanic
+//@   ensures result == old(p.stack[len(p.stack)-1]) && p.stack == old(p.stack[:len(p.stack)-1])
+//@ func (*PathStack).PeakPath
+//@   inline
+//@   requires p != nil && len(p.stack) >= 1
+//@   nopanic
+//@   ensures result == p.stack[len(p.stack)-1]
+//@ func (*PathStack).PushPath
+//@   inline
+//@   requires p != nil
+//@   modifies p.stack
+//@   modifies elems(p.stack)
+//@   nopanic
+//@   ensures len(p.stack) == old(len(p.stack)) + 1 && p.stack[len(p.stack)-1] == path && forall(i, 0, len(p.stack)-1, p.stack[i] == old(p.stack[i]))
+//@ func (*PathStack).NewPathFromCurrent
+//@   inline
+//@   requires p != nil
+//@   modifies p.stack
+//@   modifies elems(p.stack)
+//@   nopanic
+//@   ensures len(p.stack) == old(len(p.stack)) + 1 && forall(i, 0, len(p.stack)-1, p.stack[i] == old(p.stack[i]))
+//@   ensures isfresh(p.stack[len(p.stack)-1]) && len(p.stack[len(p.stack)-1].Elem) == 0 && !p.stack[len(p.stack)-1].IsRootBased
+//@ func (*PathStack).NewPathFromActual
+//@   inline
+//@   requires p != nil && forall(i, 0, len(p.stack), p.stack[i] != nil)
+//@   modifies p.stack
+//@   modifies elems(p.stack)
+//@   nopanic
+//@   ensures len(p.stack) == old(len(p.stack)) + 1 && forall(i, 0, len(p.stack)-1, p.stack[i] == old(p.stack[i])) && isfresh(p.stack[len(p.stack)-1])
+//@   ensures implies(old(len(p.stack)) == 0, len(p.stack[len(p.stack)-1].Elem) == 0 && !p.stack[len(p.stack)-1].IsRootBased)
+//@   ensures implies(old(len(p.stack)) >= 1, len(p.stack[len(p.stack)-1].Elem) == len(p.stack[len(p.stack)-2].Elem) && p.stack[len(p.stack)-1].IsRootBased == p.stack[len(p.stack)-2].IsRootBased &&
+//@           forall(i, 0, len(p.stack[len(p.stack)-1].Elem), p.stack[len(p.stack)-1].Elem[i].Name == p.stack[len(p.stack)-2].Elem[i].Name))
+
+// current(): the path restarts at the context node (a fresh, empty, relative path).
+//@ func (*ProgBuilder).CodePathSetCurrent$1
+//@   requires ctx != nil && pathWF(ctx)
+//@   modifies ctx.actualPathStack.stack
+//@   modifies elems(ctx.actualPathStack.stack)
+//@   nopanic
+//@   ensures len(pstk(ctx)) == old(len(pstk(ctx))) && isfresh(toppath(ctx)) && len(toppath(ctx).Elem) == 0 && !toppath(ctx).IsRootBased
+//@   ensures forall(i, 0, len(pstk(ctx))-1, pstk(ctx)[i] == old(pstk(ctx)[i]))
+
+// '[' opens a predicate: the operand paths inside it start from a copy of the path so far.
+//@ func (*ProgBuilder).CodePredStart$1
+//@   requires ctx != nil && ctx.actualPathStack != nil && forall(i, 0, len(pstk(ctx)), pstk(ctx)[i] != nil)
+//@   modifies ctx.actualPathStack.stack
+//@   modifies elems(ctx.actualPathStack.stack)
+//@   modifies ctx.predicateCount
+//@   modifies ctx.isLeafListFilter
+//@   modifies ctx.previousPredicateRequiresELP
+//@   nopanic
+//@   ensures ctx.predicateCount == old(ctx.predicateCount) + 1 && !ctx.isLeafListFilter && !ctx.previousPredicateRequiresELP
+//@   ensures len(pstk(ctx)) == old(len(pstk(ctx))) + 1 && forall(i, 0, len(pstk(ctx))-1, pstk(ctx)[i] == old(pstk(ctx)[i]))
+// ']' closes it: the operand path is dropped and the next name is a key name again.
+//@ func (*ProgBuilder).CodePredEnd$1
+//@   requires ctx != nil && pathWF(ctx)
+//@   modifies ctx.actualPathStack.stack
+//@   modifies ctx.predicateCount
+//@   modifies ctx.predicateEvalPath
+//@   modifies ctx.isLeafListFilter
+//@   nopanic
+//@   ensures ctx.predicateCount == old(ctx.predicateCount) - 1 && ctx.predicateEvalPath == 0 && !ctx.isLeafListFilter
+//@   ensures pstk(ctx) == old(pstk(ctx)[:len(pstk(ctx))-1])
+
+// The data tree (Entry) is consulted through these methods; within one instruction they are functions of
+// the receiver and the path object (assumed: they do not modify objects of this repository).
+//@ func (Entry).Navigate
+//@   params path
+//@   ensures result1 == tree_nav_err(self, path) && result0 == tree_nav(self, path) && implies(result1 == nil, result0 != nil)
+//@ func (Entry).GetValue
+//@   ensures result1 == tree_val_err(self) && result0 == tree_val(self) && implies(result1 == nil, result0 != nil)
+//@ func (Entry).FollowLeafRef
+//@   ensures result1 == tree_lref_err(self) && result0 == tree_lref(self) && implies(result1 == nil, result0 != nil)
+//@ func (Entry).GetSdcpbPath
+//@   ensures result == tree_path(self)
+
+//@ define allPaths(ctx) = forall(i, 0, len(pstk(ctx)), pstk(ctx)[i] != nil)
+//@ define askedNode(ctx) = tree_nav(ctx.current, old(toppath(ctx)))
+
+// End of a location path: the tree is asked for exactly the path under construction; its value is pushed,
+// and a failure of the tree is recorded as the run error (nothing is pushed, nothing else is reported).
+//@ func (*ProgBuilder).EvalLocPathInternal
+//@   requires ctx != nil && pathWF(ctx) && allPaths(ctx) && ctx.current != nil && ctx.res != nil
+//@   modifies ctx.actualPathStack.stack
+//@   modifies elems(ctx.actualPathStack.stack)
+//@   modifies ctx.stack
+//@   modifies elems(ctx.stack)
+//@   modifies ctx.res.runErr
+//@   ensures implies(tree_nav_err(ctx.current, old(toppath(ctx))) != nil, ctx.res.runErr == tree_nav_err(ctx.current, old(toppath(ctx))) && ctx.stack == old(ctx.stack))
+//@   ensures implies(tree_nav_err(ctx.current, old(toppath(ctx))) == nil && tree_val_err(askedNode(ctx)) != nil, ctx.res.runErr == tree_val_err(askedNode(ctx)) && ctx.stack == old(ctx.stack))
+//@   ensures implies(tree_nav_err(ctx.current, old(toppath(ctx))) == nil && tree_val_err(askedNode(ctx)) == nil,
+//@           push1(ctx) && top(ctx) == tree_val(askedNode(ctx)) && ctx.res.runErr == old(ctx.res.runErr) && len(pstk(ctx)) == old(len(pstk(ctx))))
+
+// deref(): the leafref at the path is followed and the path continues from its target; a failure of the
+// tree stops the instruction (recorded as run error, or raised as a panic that Run converts).
+//@ func (*ProgBuilder).Deref$1
+//@   requires ctx != nil && pathWF(ctx) && ctx.current != nil && ctx.res != nil
+//@   modifies ctx.actualPathStack.stack
+//@   modifies elems(ctx.actualPathStack.stack)
+//@   modifies ctx.res.runErr
+//@   ensures implies(tree_nav_err(ctx.current, old(toppath(ctx))) != nil, ctx.res.runErr == tree_nav_err(ctx.current, old(toppath(ctx))))
+//@   ensures implies(tree_nav_err(ctx.current, old(toppath(ctx))) == nil, tree_lref_err(askedNode(ctx)) == nil && ctx.res.runErr == old(ctx.res.runErr) &&
+//@           len(pstk(ctx)) == old(len(pstk(ctx))) && toppath(ctx) == tree_path(tree_lref(askedNode(ctx))))
